@@ -10,7 +10,10 @@ package core
 //
 //verif:bounds 2 goroutines x 1 operation each on shared ids; preemption bound 2.
 
-import "sync"
+import (
+	"strconv"
+	"sync"
+)
 
 func vhC12Op(env *vhEnv, op int, who string) (string, error) {
 	switch op {
@@ -81,5 +84,104 @@ func VH_C12_pair(kind, opA, opB int) {
 	}()
 	wg.Wait()
 	_, _, _, _ = ra, rb, errA, errB
+	vreach("end")
+}
+
+func vhC12Setup(kind int) *vhEnv {
+	env := vhNewEnv(kind)
+	_, err := env.state.Add(env.ctx, "x", Map{"a": "0"})
+	vassume(err == nil)
+	_, err = env.state.Add(env.ctx, "r", vhRuleFact(map[string]interface{}{"a": "?x"}))
+	vassume(err == nil)
+	_, err = env.state.FindCachedRules(env.ctx, Map{"a": "1"})
+	vassume(err == nil)
+	return env
+}
+
+func vhC12Res(r string, err error) string {
+	if err != nil {
+		return "E"
+	}
+	return "ok:" + r
+}
+
+// vhC12Final renders what a later client observes: the live state and the state rebuilt
+// from storage alone.
+func vhC12Final(env *vhEnv) string {
+	out := ""
+	for pass := 0; pass < 2; pass++ {
+		e := env
+		if pass == 1 {
+			e = vhOpenEnv(env.kind, env.ctx, env.store, env.name)
+		}
+		if m, err := e.state.Get(e.ctx, "x"); err != nil {
+			out += "x=nf;"
+		} else {
+			s, _ := m["a"].(string)
+			out += "x=" + s + ";"
+		}
+		if _, err := e.state.Get(e.ctx, "r"); err != nil {
+			out += "r=nf;"
+		} else {
+			out += "r=ok;"
+		}
+		rs, err := e.state.FindCachedRules(e.ctx, Map{"a": "1"})
+		if err != nil {
+			out += "rules=E;"
+		} else {
+			out += "rules=" + strconv.Itoa(len(rs)) + ";"
+		}
+		srs, err := e.state.Search(e.ctx, Map{"a": "?v"})
+		if err != nil {
+			out += "search=E|"
+		} else {
+			out += "search=" + strconv.Itoa(len(srs.Found)) + "|"
+		}
+	}
+	return out
+}
+
+// vhC12Seq: the outcome of running first then second, alone, on a fresh copy.
+func vhC12Seq(kind, opA, opB int, aFirst bool) string {
+	env := vhC12Setup(kind)
+	var ra, rb string
+	var errA, errB error
+	if aFirst {
+		ra, errA = vhC12Op(env, opA, "A")
+		rb, errB = vhC12Op(env, opB, "B")
+	} else {
+		rb, errB = vhC12Op(env, opB, "B")
+		ra, errA = vhC12Op(env, opA, "A")
+	}
+	return vhC12Res(ra, errA) + "/" + vhC12Res(rb, errB) + "/" + vhC12Final(env)
+}
+
+// VH_C12_lin: the results of two concurrent operations and the final live and stored
+// states are those of one of the two sequential orders (both respect real time, since the
+// operations overlap).
+func VH_C12_lin(kind, opA, opB int) {
+	env := vhC12Setup(kind)
+	var wg sync.WaitGroup
+	wg.Add(2)
+	ea := &vhEnv{kind: kind, ctx: env.ctx.SubContext(), store: env.store, state: env.state, loc: env.loc, name: env.name}
+	eb := &vhEnv{kind: kind, ctx: env.ctx.SubContext(), store: env.store, state: env.state, loc: env.loc, name: env.name}
+	var ra, rb string
+	var errA, errB error
+	go func() {
+		ra, errA = vhC12Op(ea, opA, "A")
+		wg.Done()
+	}()
+	go func() {
+		rb, errB = vhC12Op(eb, opB, "B")
+		wg.Done()
+	}()
+	wg.Wait()
+	got := vhC12Res(ra, errA) + "/" + vhC12Res(rb, errB) + "/" + vhC12Final(env)
+	ab := vhC12Seq(kind, opA, opB, true)
+	ba := vhC12Seq(kind, opA, opB, false)
+	if got != ab && got != ba {
+		println("GOT", got, "AB", ab, "BA", ba)
+	}
+	vassert(got == ab || got == ba, "outcome-explained-by-a-sequential-order")
 	vreach("end")
 }
